@@ -179,10 +179,17 @@ def Cont.stepSpec (c : Cont) (bens : List Rat) (tol : Rat) : Cont :=
 /-- cursors as left by `refinement_postprocessing` (and by the constructors) -/
 def Cont.Reset (c : Cont) : Prop := c.pop = [] ∧ c.startNew = 0 ∧ c.searchPos = 0
 
+/-- what the selection loop needs of the cursors: nothing waits for removal and the scan starts at 0;
+`startNewObjects` is arbitrary (`refine()` starts with `clear_new_objects()`; since repository commit 48b37d3 every
+evaluation ends with the same call, so between an evaluation and `refine()` it equals the number of objects) -/
+def Cont.Ready (c : Cont) : Prop := c.pop = [] ∧ c.searchPos = 0
+
+theorem Cont.Reset.ready {c : Cont} (h : c.Reset) : c.Ready := ⟨h.1, h.2.2⟩
+
 theorem sum_lengths_eq_suffix (origs : List (List Ival)) : (origs.map List.length).sum = suffixLen origs 0 := by
   simp [suffixLen]
 
-/-- **`selection_exact`**: on a meta container whose cursors are reset and whose object lists are tilings, the
+/-- **`selection_exact`**: on a meta container whose cursors are ready (any `startNewObjects`) and whose object lists are tilings, the
 literal cursor loop + removal + sort of one `refine()` call
 * does not fail and leaves the cursors reset,
 * refines, in strictly ascending order (so: once each), exactly the positions `(d, i)` with
@@ -190,7 +197,7 @@ literal cursor loop + removal + sort of one `refine()` call
 * leaves in every container the old object list with exactly these objects replaced by their children. -/
 theorem refineStep_spec (m : Meta) (bens : List (List Rat)) (margin : Rat)
     (hcur : m.cur = 0)
-    (hreset : ∀ c ∈ m.conts, c.Reset)
+    (hreset : ∀ c ∈ m.conts, c.Ready)
     (htil : ∀ c ∈ m.conts, ∃ a lo b hi, Til a lo b hi c.objs) :
     ∃ m' ps, m.refineStep bens margin = some (m', ps) ∧
       m'.cur = 0 ∧ m'.conts.length = m.conts.length ∧
@@ -220,7 +227,7 @@ theorem refineStep_spec (m : Meta) (bens : List (List Rat)) (margin : Rat)
           cases hcs : c0.objs with
           | nil => exact absurd hcs this
           | cons _ _ => simp
-        exact ⟨rfl, hne, by simp only []; rw [hr.2.2]; omega, by simp only []; rw [hr.1, hr.2.2]; rfl,
+        exact ⟨rfl, hne, by simp only []; rw [hr.2]; omega, by simp only []; rw [hr.1, hr.2]; rfl,
           by simp only []; rw [hr.1]; simp⟩
     · intro d c o hd; simp [Meta.clearNew, hcur] at hd
     · intro d c _ hc
@@ -231,7 +238,7 @@ theorem refineStep_spec (m : Meta) (bens : List (List Rat)) (margin : Rat)
         rw [hmd] at hc
         simp only [Option.map_some, Option.some.injEq] at hc
         subst hc
-        exact (hreset c0 (List.mem_of_getElem? hmd)).2.2
+        exact (hreset c0 (List.mem_of_getElem? hmd)).2
   have hfuel : remaining origs m.clearNew < ((m.clearNew.conts.map (·.objs.length)).sum + 1) := by
     have e : (m.clearNew.conts.map (·.objs.length)).sum = suffixLen origs 0 := by
       rw [← sum_lengths_eq_suffix]
@@ -281,6 +288,15 @@ theorem refineStep_spec (m : Meta) (bens : List (List Rat)) (margin : Rat)
     · rintro ⟨c, hc, hi, hP⟩
       refine ⟨{ c with startNew := c.objs.length }, c.objs, by simp [hc], by simp [horigs, hc], ?_, hi, hP⟩
       simp only []
-      rw [(hreset c (List.mem_of_getElem? hc)).2.2]; omega
+      rw [(hreset c (List.mem_of_getElem? hc)).2]; omega
+
+theorem clearNew_idem (m : Meta) : m.clearNew.clearNew = m.clearNew := by
+  simp [Meta.clearNew, List.map_map, Function.comp_def]
+
+/-- a `clear_new_objects()` before `refine()` (as every evaluation does since commit 48b37d3) changes nothing -/
+theorem refineStep_clearNew (m : Meta) (bens : List (List Rat)) (margin : Rat) :
+    m.clearNew.refineStep bens margin = m.refineStep bens margin := by
+  unfold Meta.refineStep
+  rw [clearNew_idem]
 
 end SparseSpace
